@@ -81,7 +81,7 @@ func FIC() []byte {
 	gasArg := func(sfx string) {
 		a.mload(sGas).Op(DUP1, ISZERO).Jumpi("allgas" + sfx)
 		a.Jump("gasok" + sfx)
-		a.Label("allgas" + sfx).Op(POP, GAS)
+		a.Label("allgas"+sfx).Op(POP, GAS)
 		a.Label("gasok" + sfx)
 	}
 	// CALL / CALLCODE: gas, addr, value, argsOffset, argsLength, retOffset, retLength
@@ -103,7 +103,7 @@ func FIC() []byte {
 
 	// after a call: stack [success]
 	a.Label("aftercall")
-	a.Op(DUP1).mload(sOut).Op(MSTORE8)                                        // out[0] = success
+	a.Op(DUP1).mload(sOut).Op(MSTORE8)                                         // out[0] = success
 	a.Op(RETURNDATASIZE).Push(240).Op(SHL).mload(sOut).Push(1).Op(ADD, MSTORE) // out[1..2] = len
 	a.Op(RETURNDATASIZE).Push(0).mload(sOut).Push(3).Op(ADD, RETURNDATACOPY)   // out[3..] = returndata
 	a.mload(sOut).Push(3).Op(ADD, RETURNDATASIZE, ADD).mstore(sOut)            // out += 3 + len
